@@ -13,6 +13,10 @@ TRUSTED = ['rustc MIR of the emitted code', 'engine/idl.py']
 
 def run(ctx):
     rep = Report('C08')
+    import gen_thrift as _g
+    _g.corpus_generated(rep, 'G08.h')
+    if ctx['tier'] == 'thorough':
+        _g.corpus_generated(rep, 'G08.h', split=True)
     gen_thrift.tolerant_reader(rep)
     if ctx['tier'] == 'thorough':
         gen_thrift.tolerant_reader(rep, split=True)   # same rules on the split-file output
